@@ -213,10 +213,22 @@ func NewVar(name string, w uint8) *Term {
 
 // NewVarRange declares a bv variable with an unsigned range [lo,hi]; the
 // range is asserted as an axiom and recorded in the interval.
+// declaredRange remembers the range a variable was declared with; declaring the
+// same name again with another range is an error (it would silently restrict
+// or widen the values explored on some path).
+var declaredRange = map[string][2]uint64{}
+
 func NewVarRange(name string, w uint8, lo, hi uint64) *Term {
 	t := NewVar(name, w)
 	if t.op == OpConst {
 		return t
+	}
+	if r, ok := declaredRange[name]; ok {
+		if r != [2]uint64{lo, hi} {
+			panic(unsupported{fmt.Sprintf("symbolic variable %q declared twice with different ranges [%d,%d] and [%d,%d]: variable names must be unique per meaning", name, r[0], r[1], lo, hi)})
+		}
+	} else {
+		declaredRange[name] = [2]uint64{lo, hi}
 	}
 	if t.lo == 0 && t.hi == mask(w) && (lo != 0 || hi != mask(w)) {
 		t.lo, t.hi = lo, hi
